@@ -110,6 +110,16 @@ theorem pSetState_step (id : Id) (to : St) (expect : Option St) (s : Store) (tx 
     repeat' split
     all_goals first | exact .same rfl h1 | exact .same rfl ⟨h1.1, h1.2.1, h1.2.2⟩
 
+theorem pRetract_step (id : Id) (expect : Option Nat) (s : Store) (tx : Tx) :
+    Step s tx (pRetract id expect s tx) := by
+  unfold pRetract
+  split
+  · exact .same rfl (TxSame.rfl' _)
+  · rename_i tx1 x hl
+    have h1 := load_same hl
+    repeat' split
+    all_goals first | exact .same rfl h1 | exact .same rfl ⟨h1.1, h1.2.1, h1.2.2⟩
+
 /-! ## The planning invariant -/
 
 /-- Relation between the store a statement began on (`base`, after `begin_transaction`) and the
@@ -211,6 +221,7 @@ theorem pres_pBind (h : Option Nat) (id : Id) : Pres (pBind h id) := Pres.of_ste
 theorem pres_pStageNew (id : Id) (row : Row) : Pres (pStageNew id row) := Pres.of_step (pStageNew_step id row)
 theorem pres_pAssign (id : Id) (v : Option Nat) : Pres (pAssign id v) := Pres.of_step (pAssign_step id v)
 theorem pres_pSetState (id : Id) (to : St) (x : Option St) : Pres (pSetState id to x) := Pres.of_step (pSetState_step id to x)
+theorem pres_pRetract (id : Id) (x : Option Nat) : Pres (pRetract id x) := Pres.of_step (pRetract_step id x)
 
 theorem Pres.chain {f g : Store → Tx → PS} (hf : Pres f) (hg : Pres g) : Pres (fun s tx => (f s tx).andThen g) :=
   fun base q d s tx e h => (hf base q d s tx e h).andThen' hg
@@ -224,6 +235,7 @@ macro "pres_chain" h:ident : tactic => `(tactic|
     | exact pres_pBind _ _ _ _ _ _ _ _ $h
     | exact pres_pStageNew _ _ _ _ _ _ _ _ $h
     | exact pres_pSetState _ _ _ _ _ _ _ _ _ $h
+    | exact pres_pRetract _ _ _ _ _ _ _ _ $h
     | exact pres_pAssign _ _ _ _ _ _ _ _ $h
     | exact Pres.fail' _ _ _ _ _ _ _ $h
     | exact pres_pGuard _ _
